@@ -5,6 +5,7 @@ mod folder;
 mod epatch;
 mod auth;
 mod integrity;
+mod leak;
 use hcommon::parse_cli;
 
 fn main() {
@@ -15,6 +16,7 @@ fn main() {
         "epatch" => epatch::run(&cli),
         "auth" => auth::run(&cli),
         "integrity" => integrity::run(&cli),
+        "leak" => leak::run(&cli),
         "sched" => sync::run_sched(&cli),
         d => {
             eprintln!("unknown domain {d}");
